@@ -6,7 +6,7 @@ From Onet Require Import Base.Corr Net.Tls Net.TlsProofs Corr.C08.
 (* the property of one recorded run *)
 Definition case_property (c : case) : Prop :=
   match c with
-  | Case lv r s holds h id _ (Obs hs disp stamp crash) =>
+  | Case lv r s holds h id _ (Obs hs disp stamp crash _) =>
       link_property lv r s holds h id hs disp stamp crash
   end.
 
@@ -15,7 +15,10 @@ Definition case_model (c : case) : outcome :=
   match c with Case lv r s _ h id msgs _ => link code_fx lv r s h id msgs end.
 
 Definition case_observed (c : case) : outcome :=
-  match c with Case _ _ _ _ _ _ _ (Obs hs disp stamp crash) => mkout hs disp stamp crash end.
+  match c with Case _ _ _ _ _ _ _ (Obs hs disp stamp crash _) => mkout hs disp stamp crash end.
+
+Definition case_honest_proof (c : case) : bool :=
+  match c with Case _ _ _ _ _ _ _ (Obs _ _ _ _ hp) => hp end.
 
 Lemma keys_eqb_eq a b : keys_eqb a b = true <-> a = b.
 Proof.
@@ -30,21 +33,23 @@ Theorem violations_nil_iff (l : list case) :
   violations l = [] <-> forall c, In c l -> case_property c.
 Proof.
   unfold violations, viols. rewrite viol_idx_nil. split; intros H c Hc; specialize (H c Hc);
-    destruct c as [lv r s holds h id msgs [hs disp stamp crash]]; simpl in *.
+    destruct c as [lv r s holds h id msgs [hs disp stamp crash hp]]; simpl in *.
   - now apply prop_check_sound.
   - now apply prop_check_sound.
 Qed.
 
 (* mism = []  <->  the model predicts every recorded run exactly *)
 Theorem mismatches_nil_iff (l : list case) :
-  mismatches l = [] <-> forall c, In c l -> case_model c = case_observed c.
+  mismatches l = [] <->
+  forall c, In c l -> case_model c = case_observed c /\ case_honest_proof c = true.
 Proof.
   unfold mismatches. rewrite mism_idx_nil. split; intros H c Hc; specialize (H c Hc);
-    destruct c as [lv r s holds h id msgs [hs disp stamp crash]]; simpl in *.
-  - repeat (apply andb_true_iff in H as [H ?]).
+    destruct c as [lv r s holds h id msgs [hs disp stamp crash hp]]; simpl in *.
+  - repeat (apply andb_true_iff in H as [H ?]). split; [|assumption].
     apply eqb_prop in H. match goal with X : Bool.eqb (out_hs _) _ = true |- _ => apply eqb_prop in X end.
     match goal with X : (_ =? _) = true |- _ => apply Nat.eqb_eq in X end.
     match goal with X : keys_eqb _ _ = true |- _ => apply keys_eqb_eq in X end.
     destruct (link code_fx lv r s h id msgs) as [a b c d]. simpl in *. now subst.
-  - rewrite H. simpl. rewrite !eqb_reflx, Nat.eqb_refl. simpl. now apply keys_eqb_eq.
+  - destruct H as [H ->]. rewrite H. simpl. rewrite !eqb_reflx, Nat.eqb_refl. simpl.
+    rewrite andb_true_r. now apply keys_eqb_eq.
 Qed.
